@@ -407,7 +407,7 @@ func checkA(c CaseA) *core.Violation {
 	if err := w.svc.Barrier(); err != nil {
 		return inconclusive("barrier: %v", err)
 	}
-	if w.busy, err = net.Listen("tcp", "127.0.0.1:0"); err != nil {
+	if w.busy, err = svcx.ListenLoopback(); err != nil {
 		return inconclusive("busy port: %v", err)
 	}
 	defer w.busy.Close()
@@ -514,9 +514,7 @@ func checkA(c CaseA) *core.Violation {
 			if e := model[op.Name]; me == nil && e != nil && e.kind == "http" && e.active {
 				code, err := w.post(e.port, probeFor(e.cfg))
 				if err != nil {
-					quiet := strings.Join(svcx.LastDump, "\n\n")
 					h := after[0].Config.(*handlers.HTTP)
-					fmt.Println("DUMP THAT WAS JUDGED QUIET:\n" + quiet + "\nEND OF DUMP")
 					return core.V("listener|add|http|not-serving", "step %d: listener %q reports Active on port %s but a request fails: %v (now: Active=%v, this process listens on the port=%v, all goroutines parked=%v)\n%s", i, op.Name, e.port, err, h.Active, svcx.OwnListening(e.port), svcx.Quiesce(), strings.Join(svcx.Goroutines(), "\n\n"))
 				}
 				if code != 200 {
